@@ -29,9 +29,18 @@ func expiryBatch(c *sup.Ctx) {
 		if spec.Intro == "SetWithMeta" {
 			spec.Relative = false
 		}
-		if (spec.Order == "later-first" || spec.Order == "later-after") && (i/len(rt.Orders))%4 != 0 {
-			// the other, later deadline comes in through a varying entry point (a far Touch must not disarm the timer either)
-			spec.OtherIntro = rt.Introducers[(i/3+i/len(rt.Introducers))%len(rt.Introducers)]
+		if spec.Order == "later-first" || spec.Order == "later-after" {
+			// the other, later deadline comes in through a varying entry point (a far Touch must not disarm the timer
+			// either): the first passes over the order classes walk through a fixed list, relative forms first, so that
+			// the quick tier meets the touches whatever the number of order classes; later passes draw from all entry points
+			k := i / len(rt.Orders)
+			cyc := []string{"Touch", "GetAndTouchRaw", "", "WriteSubDoc-then-Touch", "Set", "UpdateXattrs", "WriteWithXattrs"}
+			if k < 2*len(cyc) {
+				spec.OtherIntro = cyc[k%len(cyc)]
+				spec.Relative = k < len(cyc) && spec.Intro != "SetWithMeta"
+			} else if k%4 != 0 {
+				spec.OtherIntro = rt.Introducers[(i/3+i/len(rt.Introducers))%len(rt.Introducers)]
+			}
 		}
 		wg.Add(1)
 		go func(j int, spec rt.Spec) {
